@@ -9,10 +9,10 @@ SHAPE_CLASSES = ["PointCloud", "TriMesh", "ColouredTriMesh", "TexturedTriMesh", 
 
 
 # ------------------------------------------------------------------------------ points
-def points(rng, n, d, scale=10.0, min_sep=0.05):
-    """n points in d dims, pairwise separated (non-degenerate), bounded."""
+def points(rng, n, d, scale=10.0, min_sep=0.05, centred=False):
+    """n points in d dims, pairwise separated (non-degenerate), bounded (inside [-scale, scale]^d when centred)."""
     for _ in range(50):
-        p = rng.uniform(-1.0, 1.0, size=(n, d)) * scale + rng.uniform(-1, 1, size=d) * scale * 0.5
+        p = rng.uniform(-1.0, 1.0, size=(n, d)) * scale + (0 if centred else rng.uniform(-1, 1, size=d) * scale * 0.5)
         if n < 2:
             return p
         diff = p[:, None, :] - p[None, :, :]
@@ -124,13 +124,13 @@ def cover_all_vertices(rng, n, tl):
 
 
 # ------------------------------------------------------------------------------ shapes
-def shape(rng, cls=None, d=2, n=None, with_landmarks=0, lm_classes=None, dtype=float):
+def shape(rng, cls=None, d=2, n=None, with_landmarks=0, lm_classes=None, dtype=float, scale=10.0, centred=False):
     """A random instance of one of the eight shape classes, optionally with landmark groups."""
     import menpo.shape as ms
     from menpo.image import Image
     cls = cls or SHAPE_CLASSES[rng.integers(0, len(SHAPE_CLASSES))]
     n = n or int(rng.integers(4, 12))
-    pts = points(rng, n, d).astype(dtype)
+    pts = points(rng, n, d, scale=scale, centred=centred).astype(dtype)
     if cls == "PointCloud":
         s = ms.PointCloud(pts)
     elif cls in ("TriMesh", "ColouredTriMesh", "TexturedTriMesh"):
@@ -156,7 +156,7 @@ def shape(rng, cls=None, d=2, n=None, with_landmarks=0, lm_classes=None, dtype=f
         raise ValueError(cls)
     for g in range(with_landmarks):
         lc = (lm_classes or SHAPE_CLASSES)[rng.integers(0, len(lm_classes or SHAPE_CLASSES))]
-        s.landmarks["g%d_%s" % (g, lc)] = shape(rng, lc, d=d, n=int(rng.integers(3, 8)))
+        s.landmarks["g%d_%s" % (g, lc)] = shape(rng, lc, d=d, n=int(rng.integers(3, 8)), scale=scale, centred=centred)
     return s
 
 
